@@ -179,6 +179,16 @@ class DictContent:
         return DictContent(self.keys, self.vals, self.key_sort, self.val_sort)
 
 
+class CDictContent:
+    """python dict with concrete (hashable python) keys and arbitrary model values"""
+
+    def __init__(self, items=None):
+        self.items = dict(items or {})
+
+    def copy(self):
+        return CDictContent(self.items)
+
+
 class ObjContent:
     def __init__(self, attrs, cls=None):
         self.attrs = dict(attrs)
